@@ -307,3 +307,77 @@ M("C07", "augmented-K-not-padded", "fords/simulators.py", "        K = _np.pad(K
 M("C07", "smooth-split", "fords/simulators.py", "            v_endogenized = xi[-num_v_endogenized:]", "            v_endogenized = xi[:num_v_endogenized]", "C07-R3")
 M("C07", "targets-with-noise", "fords/simulators.py", "    H = _np.zeros((num_y, solution.num_w, ), )", "    H = _np.ones((num_y, solution.num_w, ), )", "C07-R3")
 T("C07", "twin-set-operators", SK, "        set(wrt_spots)\n        .difference(exogenized_spots)\n        .union(endogenized_spots)", "        (set(wrt_spots) - set(exogenized_spots)) | set(endogenized_spots)")
+
+# ------------------------------------------------------------------------------------------------ C03
+K = "fords/kalmans.py"
+MK = "simultaneous/_kalmans.py"
+M("C03", "total-drops-2pi", K, "            + self.sum_num_obs*self._LOG_2_PI\n            + self.sum_log_det_F", "            + self.sum_log_det_F", "C03-R1")
+M("C03", "contrib-half-missing", K, "pe_Fi_pe/self.var_scale + num_obs*self._LOG_2_PI)/2 if num_obs else 0", "pe_Fi_pe/self.var_scale + num_obs*self._LOG_2_PI) if num_obs else 0", "C03-R1")
+M("C03", "contrib-unscaled", K, "(log_det_F + num_obs*_np.log(self.var_scale) + pe_Fi_pe/self.var_scale + num_obs*self._LOG_2_PI)/2 if num_obs else 0", "(log_det_F + pe_Fi_pe + num_obs*self._LOG_2_PI)/2 if num_obs else 0", "C03-R1")
+M("C03", "empty-period-guard", K, "num_obs*self._LOG_2_PI)/2 if num_obs else 0\n", "num_obs*self._LOG_2_PI)/2\n", "C03-R2")
+M("C03", "num-obs-wrong", K, "        cache.all_num_obs[t] = y1.size", "        cache.all_num_obs[t] = y1.shape", "C03-R2")
+M("C03", "producer-H-D-swapped", MK, "    return T, P, K, Z, H, D, cov_u, cov_w, v_impact, U,", "    return T, P, K, Z, D, H, cov_u, cov_w, v_impact, U,", "C03-R3")
+M("C03", "data-u-w-swapped", MK, "    return y, u, v, w, inx_y.tolist(),", "    return y, w, v, u, inx_y.tolist(),", "C03-R3")
+M("C03", "ford-producer-swapped", "fords/simulators.py", "    return T, P, K, Z, H, D, cov_u, cov_w, v_impact, U,", "    return T, P, K, Z, H, D, cov_w, cov_u, v_impact, U,", "C03-R3")
+M("C03", "H-unmasked", MK, "    H = solution_v.H[inx_y, :]", "    H = solution_v.H[:, :]", "C03-R4")
+M("C03", "mask-from-other-array", MK, "    inx_y = ~_np.isnan(y1_array[:, t], )\n    Z = solution_v.Za[inx_y, :]", "    inx_y = ~_np.isnan(y1_array[:, t], )\n    Z = solution_v.Za[inx_y, :]\n    inx_y = ~_np.isnan(std_w_array[:, t], )", "C03-R4")
+M("C03", "cache-only-smooth", K, "        if store_smooth or store_update:", "        if store_smooth:", "C03-R5")
+M("C03", "predict-shape-G", K, "        G = Q0 @ Zt_Fi", "        G = Zt_Fi @ Q0", "C03-R6")
+M("C03", "predict-shape-Q0", K, "        Q0 = T @ Q1_prev @ T.T + P_cov_u_Pt", "        Q0 = T @ Q1_prev @ T.T + P_cov_u", "C03-R6")
+M("C03", "smoother-shape-u", K, "        uk = uk + P_cov_u.T @ r", "        uk = uk + P_cov_u @ r", "C03-R6")
+T("C03", "twin-total-rewritten", K, "            + self.sum_num_obs*self._LOG_2_PI\n            + self.sum_log_det_F\n            + self.sum_pe_Fi_pe\n        ) / 2;", "            + self.sum_pe_Fi_pe\n            + self._LOG_2_PI*self.sum_num_obs\n            + self.sum_log_det_F\n        ) * 0.5;")
+T("C03", "twin-guard-order", K, "        if store_smooth or store_update:", "        if store_update or store_smooth:")
+
+# ------------------------------------------------------------------------------------------------ C08
+M("C08", "predict-u-under-w", K, "            self.predict_med.store(u0, (u_qids, t), )", "            self.predict_med.store(u0, (w_qids, t), )", "C08-R1")
+M("C08", "smooth-no-transform", K, "            self.smooth_med.store(xi, (curr_xi_qids, t), rhs_indexes=curr_xi_indexes, transform=self.transform, )", "            self.smooth_med.store(xi, (curr_xi_qids, t), rhs_indexes=curr_xi_indexes, )", "C08-R1")
+M("C08", "smooth-u-dropped", K, "            self.smooth_med.store(u, (u_qids, t), )\n", "", "C08-R1")
+M("C08", "update-w-under-v", K, "            self.update_med.store(w, (w_qids, t), )", "            self.update_med.store(w, (v_qids, t), )", "C08-R1")
+M("C08", "expand-inverted-mask", K, "        full[inx_y] = observed", "        full[~inx_y] = observed", "C08-R1")
+M("C08", "no-exp-on-output", K, "            db[name].exp()\n", "", "C08-R2")
+M("C08", "logly-rows-from-names", K, "for i, qid in enumerate(squid.y_qids, )\n        if qid_to_logly.get(qid, False)", "for i, qid in enumerate(squid.y_qids, )\n        if not qid_to_logly.get(qid, False)", "C08-R2")
+M("C08", "transform-square", K, "            transform=solution_v.Ua,", "            transform=solution_v.T,", "C08-R3")
+M("C08", "system-square-T", MK, "    T = solution_v.Ta", "    T = solution_v.T", "C08-R3")
+T("C08", "twin-store-order", K, "            self.smooth_med.store(u, (u_qids, t), )\n            self.smooth_med.store(v, (v_qids, t), )", "            self.smooth_med.store(v, (v_qids, t), )\n            self.smooth_med.store(u, (u_qids, t), )")
+
+# ------------------------------------------------------------------------------------------------ C01
+SO = "fords/solutions.py"
+FS = "fords/simulators.py"
+M("C01", "qz-selector-tolerance", SO, "            return abs_beta < (1 + tolerance)*abs_alpha", "            return abs_beta < (1 - tolerance)*abs_alpha", "C01-R1")
+M("C01", "stable-le", SO, "            return abs_root < (1 - tolerance)", "            return abs_root < (1 + tolerance)", "C01-R1")
+M("C01", "unit-upper-le", SO, "            return abs_root >= (1 - tolerance) and abs_root < (1 + tolerance)", "            return abs_root >= (1 - tolerance) and abs_root <= (1 + tolerance)", "C01-R1")
+M("C01", "unit-lower-gap", SO, "            return abs_root >= (1 - tolerance) and abs_root < (1 + tolerance)", "            return abs_root > (1 - tolerance) and abs_root < (1 + tolerance)", "C01-R1")
+M("C01", "bk-branches-swapped", SO, "        elif num_unstable > num_forwards:", "        elif num_unstable < num_forwards:", "C01-R1")
+M("C01", "slice-S12", SO, "    S12 = S[:num_stable, num_stable:]", "    S12 = S[num_stable:, :num_stable]", "C01-R2")
+M("C01", "slice-Z21", SO, "    Z21 = Z[num_forwards:, :num_stable]", "    Z21 = Z[:num_forwards, :num_stable]", "C01-R2")
+M("C01", "slice-QDD2", SO, "    Q_DD2 = Q_DD[num_stable:, :]", "    Q_DD2 = Q_DD[:num_stable, :]", "C01-R2")
+M("C01", "G-cut-wrong-side", SO, "    G = system.G[:, num_forwards:]", "    G = system.G[:, :num_forwards]", "C01-R")
+M("C01", "expansion-order", SO, "        Rk = -X @ _np.linalg.matrix_power(J, k_minus_1, ) @ Ru", "        Rk = -X @ Ru @ _np.linalg.matrix_power(J, k_minus_1, )", "C01-R2")
+M("C01", "deviation-forgets-Ka", SO, "            new.Ka = _np.zeros_like(self.Ka, )", "            new.Ka = self.Ka", "C01-R4")
+M("C01", "deviation-zeroes-more", SO, "            new.K = _np.zeros_like(self.K, )", "            new.K = _np.zeros_like(self.K, )\n            new.P = _np.zeros_like(self.P, )", "C01-R4")
+M("C01", "measurement-D-always", FS, "    D = solution.D if not deviation else 0", "    D = solution.D if deviation else 0", "C01-R4")
+M("C01", "sort-leads-last", "incidences/main.py", "    return sorted(tokens, key=lambda x: (-x.shift, x.qid))", "    return sorted(tokens, key=lambda x: (x.shift, x.qid))", "C01-R5")
+M("C01", "forward-count-ge", "fords/descriptors.py", "if t.shift>0", "if t.shift>=0", "C01-R5")
+M("C01", "solution-vector-drop", "fords/descriptors.py", "        tuple(system_transition_vector[num_forwards:]),", "        tuple(system_transition_vector[:num_forwards]),", "C01-R5")
+T("C01", "twin-selector-rewritten", SO, "            return abs_beta < (1 + tolerance)*abs_alpha", "            return abs_beta < abs_alpha + tolerance*abs_alpha")
+T("C01", "twin-unit-reordered", SO, "            return abs_root >= (1 - tolerance) and abs_root < (1 + tolerance)", "            return abs_root < (1 + tolerance) and not abs_root < (1 - tolerance)")
+
+# ------------------------------------------------------------------------------------------------ C19
+M("C19", "mark-suffix-only", "databoxes/_exports.py", '    return "__" + frequency.name.lower() + "__"', '    return "_" + frequency.name.lower() + "__"', "C19-R1")
+M("C19", "mark-value-not-name", "databoxes/_exports.py", '    return "__" + frequency.name.lower() + "__"', '    return "__" + str(frequency.value) + "__"', "C19-R1")
+M("C19", "continuation-mark-drift", "databoxes/_imports.py", '            if status and n=="*":', '            if status and n=="+":', "C19-R1")
+M("C19", "block-start-column", "databoxes/_imports.py", "            current_start = column + 1", "            current_start = column", "C19-R1")
+M("C19", "header-rows", "databoxes/_imports.py", "        num_header_rows = 1 + int(description_row)", "        num_header_rows = 1", "C19-R1")
+M("C19", "frequency-alias-first", "dates.py", "    INTEGER = 0\n    YEARLY = 1\n    ANNUAL = 1", "    INTEGER = 0\n    YEARLY = 1\n    YEAR_END = 3", "C19-R1")
+M("C19", "copy-not-deep", "databoxes/main.py", "        new_databox = _co.deepcopy(self, )", "        new_databox = type(self)(self)", "C19-R2")
+M("C19", "prepend-mutates-argument", "databoxes/main.py", "        other = other.copy()\n", "", "C19-R2")
+M("C19", "remove-unresolved", "databoxes/main.py", "        remove_names, *_ \\\n            = self._resolve_source_target_names(remove_names, None, strict_names, )\n", "", "C19-R2")
+M("C19", "lockstep-variant-arg", "dataslates/main.py", "            v.remove_periods_from_end(remove, )", "            v.remove_periods_from_end(remove - 1, )", "C19-R3")
+M("C19", "invariant-end-slice", "dataslates/_invariants.py", "            self.periods = self.periods[:-num_periods_to_remove]", "            self.periods = self.periods[:-num_periods_to_remove-1]", "C19-R3")
+M("C19", "variant-start-slice", "dataslates/_variants.py", "            self.data = self.data[:, num_periods_to_remove:]", "            self.data = self.data[:, num_periods_to_remove+1:]", "C19-R3")
+M("C19", "add-duplicates-last", "dataslates/_invariants.py", "_dates.periods_from_until(end_period + 1, new_end_period, )", "_dates.periods_from_until(end_period, new_end_period, )", "C19-R3")
+M("C19", "variant-copy-alias", "dataslates/_variants.py", "        new.data = self.data.copy()", "        new.data = self.data", "C19-R3")
+M("C19", "fallback-overwrites-all", "dataslates/_variants.py", "            values[index_nan] = _np.float64(fallbacks[name])", "            values[:] = _np.float64(fallbacks[name])", "C19-R3")
+M("C19", "overwrites-before-fallbacks", "dataslates/_variants.py", "        self._apply_fallbacks(fallbacks, invariant, )\n        self._apply_overwrites(overwrites, invariant, )", "        self._apply_overwrites(overwrites, invariant, )\n        self._apply_fallbacks(fallbacks, invariant, )", "C19-R3")
+T("C19", "twin-mark-fstring", "databoxes/_exports.py", '    return "__" + frequency.name.lower() + "__"', '    return f"__{frequency.name.lower()}__"')
+T("C19", "twin-lockstep-rename", "dataslates/main.py", "            v.remove_periods_from_end(remove, )", "            v.remove_periods_from_end(remove)")
